@@ -104,6 +104,17 @@ def _t_as_is(v):
     return v
 
 
+def _t_signbit(v):
+    """True for numbers with the sign bit set - tells -0.0 from 0.0 and 0 although they compare (and hash) equal."""
+    import math
+
+    if isinstance(v, bool) or not isinstance(v, (int, float)):
+        return False
+    if isinstance(v, int):
+        return v < 0  # (any size: no conversion to float)
+    return math.copysign(1.0, v) < 0
+
+
 def _t_length(v):
     return len(v) if isinstance(v, str) else 0
 
@@ -135,6 +146,7 @@ TESTS = {
     "between_args": _t_between_args,
     "within": _t_within,
     "as_is": _t_as_is,
+    "signbit": _t_signbit,
     "length": _t_length,
     "above_0": _ABOVE_0,
     "above_1": _ABOVE_1,
